@@ -4,28 +4,27 @@ import json, os
 V = os.path.dirname(os.path.dirname(os.path.abspath(__file__)))
 MC = "model_checking"
 CHECKS = {
- "C01": (MC, "TLC trace validation of real (input, output) syntax trees against the TLA+ relation R01 (Norm equality); L2 layout models checked exhaustively", "§6 C01"),
- "C03": (MC, "TLC trace validation: the second Format step of every recorded run must stutter (R03); model-level convergence of the L2 layout models", "§6 C03"),
- "C04": (MC, "TLC trace validation of the parser's error flag on every recorded output (R04); CommentTermination / Glue / DelimBalance invariants on the L2 models", "§6 C04"),
- "C06": (MC, "TLC trace validation of comment kind/text/word-position sequences (R06); comment conservation invariants of the L2 stylist models", "§6 C06"),
- "C08": (MC, "TLC trace validation of per-Markup-node prose signatures (R08, lockstep walk); MarkupLines model", "§6 C08"),
- "C09": (MC, "TLC trace validation of atom/blank/line-feed signatures of every math node (R09); MathLayout model", "§6 C09"),
- "C10": (MC, "TLC trace validation of the literal leaf sequences incl. ast::Raw extraction (R10); Strip/Render LiteralIntegrity", "§6 C10"),
- "C11": (MC, "TLC trace validation of output lines (R11); exhaustive check of Strip.tla postcondition", "§6 C11"),
- "C12": (MC, "TLC trace validation of line indentation against the unit (R12a) and pairwise unit scaling (R12b)", "§6 C12"),
+ "C01": (MC, "TLC trace validation of real (input, output) syntax trees against the TLA+ relation R01 (normal-form equality) over the fixed universes; exhaustive TLC design checks of the L2 layout models (ListLayout, FlowLayout+optional parentheses) whose behaviours are replayed into the real code", "§6 C01, §0"),
+ "C02": ("exploration", "the real Typst compiler is the logged oracle: TLC checks Obs(out) = Obs(in) (pages, pixel digests, metadata or diagnostics) on every (program, distinct formatted output) pair of U-prog; exploration strength because the oracle is outside any model", "§6 C02, §7"),
+ "C03": (MC, "TLC trace validation: every second Format step of a recorded run must stutter (R03), at every width where the layout changes; L2 models ListLayout / ChainLayout / MarkupLayout checked exhaustively and replayed", "§6 C03"),
+ "C04": (MC, "TLC trace validation of the parser's error flag on every recorded output (R04), widths 0 and 1 always included; CommentTermination / BreakSafety / DelimBalance invariants on the L2 models in every rendering", "§6 C04"),
+ "C05": (MC, "Pipeline.tla (no action for panic / abort / time-out; refuses iff erroneous) model-checked incl. termination; every call of U-str (exhaustive to length 3/4 over 28 critical characters), U-mut, U-nest and degenerate documents validated against it with the phase-hook trace", "§6 C05"),
+ "C06": (MC, "TLC trace validation of comment kind / normalised text / word-position sequences and of the word stream (R06); comment conservation invariants of the L2 stylist models in every rendering", "§6 C06"),
+ "C07": (MC, "TLC trace validation of R07 (text of the node after the k-th directive, optional wrappers skipped) with directives at every leaf boundary of every seed", "§6 C07"),
+ "C08": (MC, "TLC trace validation of per-Markup-node prose signatures (R08, lockstep walk); MarkupLayout model (line collector + boundaries) checked exhaustively and replayed", "§6 C08"),
+ "C09": (MC, "TLC trace validation of atom / blank / line-feed signatures of every Math / MathDelimited / Equation node (R09)", "§6 C09"),
+ "C10": (MC, "TLC trace validation of the literal leaf sequences incl. typst's own ast::Raw extraction (R10)", "§6 C10"),
+ "C11": (MC, "TLC trace validation of the output lines (R11) on every output of every universe; Strip/Render hygiene invariant of the L2 models", "§6 C11"),
+ "C12": (MC, "TLC trace validation of line indentation against the unit (R12a, every width) and of pairwise unit scaling at width 10^4 (R12b, units 2/3/5/8); IndentUnit invariant of the L2 models", "§6 C12"),
+ "C13": (MC, "TLC trace validation of the R13 contract (no panic, covering node on a node boundary, refusal only for erroneous sources, splice parses and is R01-equivalent) on all (start, end) pairs of small documents incl. ends past the text", "§6 C13"),
+ "C14": (MC, "Cli.tla: the code-shaped driver model satisfies the C14 contract in every state for all trees / command lines within the bounds (TLC, exhaustive, any directory order); TLC-generated scenarios are run against the real binary and validated by TraceCli (read-only, exit status, silence, syscall trace)", "§6 C14-C16"),
+ "C15": (MC, "Cli.tla contract (write exactly where allowed, exactly the library's text, failures reported and isolated, second run a no-op) model-checked and validated on real runs incl. strace write-opens / read order", "§6 C14-C16"),
+ "C16": (MC, "Cli.tla stdout contract on real runs + front-end differential: file/stdin/three files/-i/format-all/format_with_width against the library byte for byte over sources x the option grid (R16)", "§6 C14-C16"),
+ "C17": (MC, "Session.tla (no shared variable; Deterministic) model-checked; its interleavings of the pipeline phases are replayed with real threads gated at the phase hook; sequential, free-running and second-process histories validated by TraceSession", "§6 C17"),
+ "C18": (MC, "Cost.tla (BoundedVisits, with the try-then-fallback anti-pattern as vacuity guard) model-checked; visit logs of the real code (hook H1) on every nesting family to depth 48/200 validated against it", "§6 C18"),
+ "C19": (MC, "TLC trace validation of R19 on (input, output with reordering off, output with reordering on) triples of all import seeds with trivia at every boundary", "§6 C19"),
 }
-NOT_YET = {
- "C02": "not built yet in this round (planned: exploration with the real compiler as logged oracle, DESIGN.md §6 C02)",
- "C05": "not built yet in this round (Pipeline.tla + U-str/U-mut drivers, DESIGN.md §6 C05)",
- "C07": "not built yet in this round (R07 + Attr.tla, DESIGN.md §6 C07)",
- "C13": "not built yet in this round (Range.tla, DESIGN.md §6 C13)",
- "C14": "not built yet in this round (Cli.tla + CliTrace.tla, DESIGN.md §6 C14)",
- "C15": "not built yet in this round (Cli.tla + CliTrace.tla, DESIGN.md §6 C15)",
- "C16": "not built yet in this round (Cli.tla + front-end differential events, DESIGN.md §6 C16)",
- "C17": "not built yet in this round (Session.tla + schedule replay, DESIGN.md §6 C17)",
- "C18": "not built yet in this round (Cost.tla + visit hook, DESIGN.md §6 C18)",
- "C19": "not built yet in this round (R19 + ImportItems.tla, DESIGN.md §6 C19)",
-}
+NOT_YET = {}
 def main():
     checks = []
     for pid, (cat, text, ref) in sorted(CHECKS.items()):
@@ -47,7 +46,7 @@ def main():
             "guard": "--cfg typstyle_verif",
             "enable": "RUSTFLAGS='--cfg typstyle_verif' via /verif/harness/.cargo/config.toml (the harness builds /repo's crates as path dependencies)",
             "baseline_off_cmd": "cd /repo && cargo test --workspace --no-fail-fast --offline",
-            "source_commits": [],
+            "source_commits": ["c8a0a81"],
             "add_only": True,
         },
         "engines": [
